@@ -94,6 +94,9 @@ func (header *Header) Validate(ctx context.Context, opts ...ValidationOption) er
 				if err := example.Validate(ctx); err != nil {
 					return fmt.Errorf("%s: %w", name, err)
 				}
+				if example.Value.Value == nil && example.Value.ExternalValue != "" {
+					continue // the value lives elsewhere: there is nothing here to check against the schema
+				}
 				if err := validateExampleValue(ctx, example.Value.Value, schema.Value); err != nil {
 					return fmt.Errorf("%s: %w", name, err)
 				}
